@@ -448,7 +448,9 @@ impl LockStep {
             // the instruction read a value no property specifies (or followed an unspecified
             // CONTINUE): whatever the reference predicts from it is not comparable
             self.resync();
-            self.resync_next = false;
+            // what CONTINUE does after a halt reached through an unspecified instruction (e.g. a
+            // 0x01 loaded as second opcode byte) is specified nowhere: follow the SUT once more
+            self.resync_next = true;
             self.presses.clear();
             self.ended = Some(Ended::Halted);
             self.last = Some(info);
